@@ -675,8 +675,18 @@ func runCase(c ccase) (out cres) {
 				leak = true
 				viol("procs-not-returned", fmt.Sprintf("no Compile/Run/CommitCombiner RPC in flight, %v after the run ended (%s), yet the manager still counts procs in use: %+v", quiesceWait, out.Path, out.Views))
 			}
-			if sumInts(out.Queued) != 0 {
-				viol("request-not-served-or-removed", fmt.Sprintf("scheduling requests still queued %v after the run ended, no RPC in flight: %v; machines %+v", quiesceWait, out.Queued, out.Views))
+			// A request may wait as long as no machine can take it. It is only "not
+			// served" if the run has ended (a hung run is still waiting, by definition),
+			// no procs are leaked, and a healthy, live, completely idle machine exists:
+			// every request fits on such a machine.
+			idleOK := false
+			for _, v := range out.Views {
+				if v.Health == "ok" && !v.Lost && v.TaskProcs == 0 {
+					idleOK = true
+				}
+			}
+			if sumInts(out.Queued) != 0 && !runHung && !leak && idleOK {
+				viol("request-not-served-or-removed", fmt.Sprintf("scheduling requests still queued %v after the run ended, no RPC in flight, an idle healthy machine exists: %v; machines %+v", quiesceWait, out.Queued, out.Views))
 			}
 		}
 	}
